@@ -40,7 +40,7 @@ func (p *rtPacer) Pace(elapsed time.Duration, hits uint64) (time.Duration, bool)
 	p.tr.Emit("Pace", KV{"t": elapsed.Microseconds(), "elapsed": elapsed.Microseconds(), "hits": hits, "wait": logged, "stop": stop})
 	return wait, stop
 }
-func (p *rtPacer) Rate(time.Duration) float64 { return 0 }
+func (p *rtPacer) Rate(time.Duration) float64 { return math.Inf(1) } // whatever it claims here, Pace is what the loop obeys
 
 func TestDrv_AttackRT(t *testing.T) {
 	dir := outDir(t)
@@ -62,6 +62,7 @@ func TestDrv_AttackRT(t *testing.T) {
 		{"positive-only", []time.Duration{5 * ms, 10 * ms, 5 * ms}, 0, 3, 0, 0},
 		{"constant-pacer-catching-up", nil, 20, 8, 1, 180 * ms}, // falls behind during the slow first response: zero waits, then positive ones
 		{"constant-pacer-steady", nil, 100, 15, 0, 0},
+		{"waits-of-microseconds", []time.Duration{20 * time.Microsecond, 45 * time.Microsecond, 10 * time.Microsecond, 30 * time.Microsecond}, 0, 200, 0, 0},
 		// a burst, then "idle for ever": the largest wait there is, asked for when some time has already elapsed
 		{"burst-then-idle-forever", []time.Duration{0, 0, 2 * ms, math.MaxInt64, math.MaxInt64, math.MaxInt64, math.MaxInt64}, 0, 1 << 30, 0, 0},
 		{"burst-then-idle-almost-forever", []time.Duration{0, 3 * ms, math.MaxInt64 - time.Duration(ms), math.MaxInt64 - 1, math.MaxInt64 - 1}, 0, 1 << 30, 0, 0},
